@@ -2628,6 +2628,18 @@ def check_splay(ck, tu):
                 lf = tu.by_did.get(l.get("fn"))
                 if lf is not None and any(match.call_named(z, ("delete_node",)) for z in ir.walk(lf.body) if "callee" in z):
                     deletes = True
+            if not deletes:
+                # the visitor is a function object of a named class (by value, a named local, ...): the call operator is the
+                # one this instantiation of the traversal invokes on its first parameter
+                inst = tu.by_did.get(c["callee"].get("did"))
+                if inst is not None and inst.body is not None and inst.params:
+                    for y in ir.walk(inst.body):
+                        fc = match.functor_call(y) if "callee" in y else None
+                        if fc and ref_of(fc[0]) == inst.params[0]["did"]:
+                            of = tu.by_did.get(y["callee"].get("did"))
+                            if of is not None and of.body is not None and of.name == "operator()" \
+                                    and any(match.call_named(z, ("delete_node",)) for z in ir.walk(of.body) if "callee" in z):
+                                deletes = True
             if deletes:
                 ck.guarded(lambda x=x, c=c: check_owner(ck, tu, fn, tag, x, c, g_of()))
         # ---- SPLAY-LINK: a child link may only be overwritten when saved before or known null
@@ -3114,14 +3126,24 @@ def check_orient(ck, fn):
 def check_insert_orient(ck, fn):
     """splay_insert: on every path (tree empty | new key strictly smaller | strictly larger) the links at the end are the ones of
     a root insertion: decision table over {t is null, cmp(new, root), cmp(root, new)}, the assignments of each path are
-    executed on symbolic values (null, t, nn, the links t had on entry)"""
+    executed on symbolic values (null, t, nn, the links t had on entry, the address of a child link of t / nn held in a local)"""
     nn, t = fn.params[0]["did"], fn.params[1]["did"]
+
+    def und(what):
+        raise dtable.Undecidable("%s: SPLAY-ORIENT: splay_insert: %s" % (fn.loc, what))
+
+    def unwrap(e):
+        e = strip_casts(e)
+        while e is not None and e["k"] in WRAP and kids(e):
+            e = strip_casts(kids(e)[0])
+        return e
 
     def owner(e):
         f = match.field_of(e)
         return ref_of(f[0]) if f and f[1] == "key" else None
 
-    def atomize(n, run):
+    def table_atom(n):
+        """the atoms of the table: t is null, cmp(new, root), cmp(root, new)"""
         n0 = strip_casts(n)
         pt = match.ptr_truth(n) or (match.ptr_truth(n0) if n0 is not n else None)
         if pt is not None and ref_of(pt) == t:
@@ -3140,17 +3162,27 @@ def check_insert_orient(ck, fn):
                 return ("root<new", False)
             raise dtable.Undecidable("%s: comparison operands not understood: %s" % (fn.loc, dtable.describe(n0)))
         return None
-    leaves = dtable.explore(ret_as_if(fn.body, only=lambda e: False), atomize, fn)
 
-    def und(what):
-        raise dtable.Undecidable("%s: SPLAY-ORIENT: splay_insert: %s" % (fn.loc, what))
-
-    def final_state(lf):
-        """-> (links at the end {(node, side): value}, returned value)"""
+    def replay(events, stop, run):
+        """the effects of one path (or of the part of a path executed so far) on symbolic values
+        -> (links {(node, side): value}, locals {did: value}, returned value)"""
         store, env = {}, {}
 
+        def cond(c):
+            """the condition of a ?: on this path: a const bool local the table has evaluated, or an atom the table has decided"""
+            c0 = unwrap(c)
+            if c0 is not None and c0["k"] == "UnaryOperator" and c0.get("op") == "!":
+                return not cond(kids(c0)[0])
+            d = ref_of(c0)
+            if d is not None and c0.get("ty") == "const bool" and isinstance(run.env.get(d), bool) and d not in run.clobbered:
+                return run.env[d]
+            a = table_atom(c0) if c0 is not None else None
+            if a is not None and a[0] in run.val:
+                return (not run.val[a[0]]) if a[1] else run.val[a[0]]
+            und("the condition of the ?: at line %s is not understood" % (c.get("l") if c is not None else "?"))
+
         def value(e):
-            e = strip_casts(e)
+            e = unwrap(e)
             if e is None:
                 return "?"
             if is_null(e):
@@ -3162,6 +3194,21 @@ def check_insert_orient(ck, fn):
                 v = value(kids(e)[1])
                 assign(kids(e)[0], v)
                 return v
+            if e["k"] == "ConditionalOperator":
+                c0, a, b = kids(e)
+                return value(a if cond(c0) else b)
+            if e["k"] == "UnaryOperator" and e.get("op") == "&":
+                f = match.field_of(unwrap(kids(e)[0]))
+                if f and f[1] in ("left", "right") and unwrap(kids(e)[0]).get("arrow"):
+                    b = value(f[0])
+                    if b in ("nn", "t"):
+                        return ("&", b, f[1])
+                return "?"
+            if e["k"] == "UnaryOperator" and e.get("op") == "*":
+                p = value(kids(e)[0])
+                if isinstance(p, tuple):
+                    return store.get((p[1], p[2]), "%s->%s" % (p[1], p[2]))
+                return "?"
             f = match.field_of(e)
             if f and f[1] in ("left", "right"):
                 b = value(f[0])
@@ -3176,12 +3223,23 @@ def check_insert_orient(ck, fn):
                     und("a parameter is reassigned (line %s)" % lhs.get("l"))
                 env[d] = v
                 return
+            l0 = unwrap(lhs)
+            if l0 is not None and l0["k"] == "UnaryOperator" and l0.get("op") == "*":
+                p = value(kids(l0)[0])
+                if not isinstance(p, tuple):
+                    und("a store to %s is not understood" % dtable.describe(lhs))
+                if isinstance(v, tuple):
+                    und("the address of a link is stored in a link (line %s)" % lhs.get("l"))
+                store[(p[1], p[2])] = v
+                return
             f = match.field_of(lhs)
             b = value(f[0]) if f else "?"
             if not f or b not in ("nn", "t"):
                 und("a store to %s is not understood" % dtable.describe(lhs))
+            if isinstance(v, tuple):
+                und("the address of a link is stored in a link (line %s)" % lhs.get("l"))
             store[(b, f[1])] = v
-        for kind, root, v in path_roots(lf):
+        for kind, root, v in path_roots({"events": events, "stop": stop}):
             if kind == "loop":
                 und("a loop")
             if kind == "ret":
@@ -3208,8 +3266,41 @@ def check_insert_orient(ck, fn):
             elif any(match.unop(y, ("++", "--")) or (match.binop(y, ASSIGN_OPS) and y["k"] in ("BinaryOperator", "CompoundAssignOperator"))
                      or ("callee" in y and y["k"] in ("CallExpr", "CXXMemberCallExpr")) for y in ir.walk(e)):
                 und("the statement at line %s is not understood" % e.get("l"))
-        st = lf["stop"]
-        ret = value(st[1][0]) if st[0] == "return" and st[1] and st[1][0] is not None else None
+        ret = value(stop[1][0]) if stop[0] == "return" and stop[1] and stop[1][0] is not None else None
+        if isinstance(ret, tuple):
+            ret = "?"
+        return store, env, ret
+
+    def atomize(n, run):
+        a = table_atom(n)
+        if a is not None:
+            return a
+        # a test of a pointer local against null: decided from the value the statements executed so far have given it
+        n0 = strip_casts(n)
+        pt = match.ptr_truth(n) or (match.ptr_truth(n0) if n0 is not n else None)
+        p, nonnull_is = (pt, True) if pt is not None else (None, None)
+        bb = match.binop(n0, ("==", "!=")) if p is None else None
+        if bb and n0["k"] == "BinaryOperator":
+            for l, r in ((bb[1], bb[2]), (bb[2], bb[1])):
+                if is_null(r) and not is_null(l):
+                    p, nonnull_is = l, bb[0] == "!="
+                    break
+        d = ref_of(p) if p is not None else None
+        if d is None or d in (nn, t) or not (unwrap(p).get("ty") or "").rstrip().endswith("*"):
+            return None
+        pv = replay(run.events, ("end", None), run)[1].get(d, "?")
+        if pv == "null":
+            return not nonnull_is
+        if isinstance(pv, tuple) and (pv[1] == "nn" or run.val.get("null") is False):
+            return nonnull_is           # the address of a link of an existing node
+        if pv == "t":
+            return ("null", nonnull_is)
+        return None
+    leaves = dtable.explore(ret_as_if(fn.body, only=lambda e: False), atomize, fn)
+
+    def final_state(lf):
+        """-> (links at the end {(node, side): value}, returned value)"""
+        store, _env, ret = replay(lf["events"], lf["stop"], lf["run"])
         return store, ret
     want_empty = {("nn", "left"): "null", ("nn", "right"): "null"}
     want_small = {("nn", "left"): "t->left", ("nn", "right"): "t", ("t", "left"): "null", ("t", "right"): "t->right"}
